@@ -72,6 +72,16 @@ CLAIMS = {
         'HypCluster index pairing / empty-cluster arm / argmin; APFL global branch isolation). The numerical equalities are not decided.',
    design='DESIGN.md section 4 C12; rules R-SIB, R-WMEAN, R-PROX, R-MIME, R-HYP, R-KEY',
    technique='sibling-implementation cross-checking via record-field role recovery and accumulator-idiom recognition'),
+ 'C08': dict(
+   text='Static analysis (level "other"): sibling cross-check of the three FederatedData implementations: exhaustive interface '
+        'coverage with matching arity, half-open range semantics at every comparison (SQL clauses parsed from the string literals, '
+        'point-lookup guards, Subset/InMemory comprehensions), _range_where covering the four None combinations, every SELECT '
+        'range-restricted or a guarded point lookup, ORDER BY rowid on iteration, KeyError discipline on all paths, derivations '
+        'that rebuild the view from its own fields changing only the intended one, immutable preprocessor chains, client-before-'
+        'batch preprocessing, sorted/ordered iteration, empty views constructible, and no write through self/arguments in any '
+        'view method. Equality of content across implementations is not decided.',
+   design='DESIGN.md section 4 C08; rules R-SIB, R-SQL, R-KEYERR, R-DERIVE, R-ORDER, R-PURE, R-EMPTY',
+   technique='sibling-implementation cross-checking (normalised comparisons, SQL literal parsing, CFG dominance, alias/mutation analysis)'),
  'C09': dict(
    text='Static analysis (level "other"): decides the structural necessary conditions of crash-safe resumption on every '
         'path of the code: checkpoints are published only by rename of a complete temp file that the loader pattern '
@@ -99,6 +109,24 @@ CLAIMS = {
         'Agreement with an independent reference on all inputs is not decided.',
    design='DESIGN.md section 4 C14; rules R-SLICE, R-FOLD, R-PAIR, R-TYPE, R-ORDER',
    technique='per-class contradiction/pairing lints over the AST with reaching-definition provenance'),
+ 'C16': dict(
+   text='Static analysis (level "other"): writer/reader table agreement for the msgpack scheme (every extension code packed is '
+        'unpacked by the inverse helper with equal tuple arity; codes distinct), C-order on both sides, byte order normalised '
+        'because the descriptor written (dtype.name) carries none, strict_types/raw flags consistent, bytes-only object arrays, '
+        'SQLite writer/reader inverse compositions with matching column order and validated row counts, pickle dump/load on '
+        'binary files. Value equality for all dtypes/layouts is not decided.',
+   design='DESIGN.md section 4 C16; rules R-SIB.ext, R-PAIR.layout/byteorder/flags, R-SIB.sqlite, R-PAIR.pickle',
+   technique='writer/reader sibling agreement checks over the AST (tables, arities, flags, SQL literals)'),
+ 'C20': dict(
+   text='Static analysis (level "other"): a constant folder evaluates from source the label ids and vocabulary sizes on the '
+        'dataset side (including shakespeare._build_look_up_table on its literal vocabulary) and on the model side at default '
+        'arguments and compares them; checks that metric/loss configuration uses those named ids, that tasks pair dataset and '
+        'model consistently, that the CIFAR-100 TFF standard-deviation floor has the same normal form as the one parsed from the '
+        'installed TensorFlow source, centre-crop and EMNIST writer-id offsets, and that packaged classification/language models '
+        'keep the batch axis in train_loss and use no batch normalisation. Tokenizer losslessness and numeric agreement with '
+        'TensorFlow are not decided.',
+   design='DESIGN.md section 4 C20; rules R-CONST, R-SIB.tf, R-TASK, R-ROW, R-OFFSET',
+   technique='constant folding from source + cross-module constant comparison + reference-source comparison (installed TensorFlow)'),
  'C19': dict(
    text='Static analysis (level "other"): for each cache completion marker (a path whose existence skips work) every '
         'writer that can create it is shown, on all normal CFG paths, to write a distinct temp name and publish it by '
